@@ -2,7 +2,7 @@
 from __future__ import annotations
 import ast
 
-from ..flow import depends_on_param, root_name
+from ..flow import depends_on_param, params_of, root_name
 from ..rules.common import (acc_named, calls_to, bound_args, where, norm, expr_sources, call_tokens,
                             is_complement_of)
 from ..rules import scale as scale_rule
@@ -35,6 +35,7 @@ def run(ctx, obs):
         fold_separation(ctx, obs, q)
         labels_and_copy(ctx, obs, q)
     distinct_fold_indices(ctx, obs, CN)
+    operand_symmetry(ctx, obs, CN)
     scale_rule.check_return(ctx, obs, SINGLE, {'chan': -1})
     scale_rule.check_value_at_build(ctx, obs, CN, {'chan': -1})
     scale_rule.check_value_at_build(ctx, obs, PCV, {'chan': -1})
@@ -246,6 +247,34 @@ def labels_and_copy(ctx, obs, q):
         obs.check(nm is not None and depends_on_param(nm[1], 'descriptor'), 'PAIR', q,
                   'labels: condition descriptor name reaches _build_rdms', 'descriptor name not forwarded', '',
                   where(prog, f, c.node))
+    # ALIGN: per-fold condition means come in order of first appearance WITHIN the fold (order typing of average_dataset_by); they
+    # are combined row by row across folds, so the dataset must have been sorted by the condition descriptor beforehand (then
+    # every order-preserving subset lists the conditions in sorted order).  The sort key is compared with the averaging key.
+    from ..rules import order as _order
+    _, osumm = _order._analysis(ctx)
+    avg = [c for c in r.calls if any(x.endswith('average_dataset_by') for x in c.callees) and c.in_loops]
+    t = osumm.get('data.computations.average_dataset_by')
+    rows = t.comps[0] if t is not None and t.kind == 'Tuple' and t.comps else None
+    for c in avg:
+        con = f'fold means (#{c.ordinal}) list the conditions in the same order in every fold'
+        if rows is None:
+            obs.unk('ALIGN', q, con, 'row order of average_dataset_by could not be typed', where(prog, f, c.node))
+            continue
+        if rows.o == _order.SORTED:
+            obs.ok('ALIGN', q, con, 'average_dataset_by returns sorted order', where(prog, f, c.node))
+            continue
+        akey = c.arg(1) or frozenset()
+        good = [s for s in sorts if not s.in_loops and s.node.args and params_of(s.arg(0) or frozenset()) == params_of(akey)
+                and params_of(akey)]
+        if good:
+            obs.ok('ALIGN', q, con, f'`{norm(good[0].node)}` precedes the fold loop', where(prog, f, c.node))
+        elif sorts:
+            obs.bad('ALIGN', q, con, f'the dataset is sorted by `{norm(sorts[0].node.args[0]) if sorts[0].node.args else "?"}` but the fold '
+                    f'means are taken by `{norm(c.node.args[1]) if len(c.node.args) > 1 else "?"}`: within a fold the conditions appear in '
+                    f'observation order, which differs between folds, so rows of different conditions are multiplied', where(prog, f, c.node))
+        else:
+            obs.bad('ALIGN', q, con, 'no sort_by on the condition descriptor precedes the fold loop: per-fold means are in order of first '
+                    'appearance within each fold', where(prog, f, c.node))
     # copy before sort (DOM + PURE at alias level)
     for s in sorts:
         rv = s.node.func.value
@@ -281,3 +310,52 @@ def fwd_from_calc_rdm(ctx, obs):
                 obs.check(p in b and depends_on_param(b[p][1], p), 'FWD', q, f'calc_rdm passes {p} to {callee.split(".")[-1]}',
                           f'`{norm(c.node)[:90]}` does not pass `{p}` in the slot of parameter `{p}`', '',
                           where(prog, f, c.node))
+
+
+def operand_symmetry(ctx, obs, q, rule='SYM-prep'):
+    """crossnobis: the two fold-mean matrices multiplied by the kernel get the SAME preparation (with remove_mean: both are
+    centred per condition) - the product x_train P x_test' is only the cross-validated distance of the centred patterns when both
+    factors are centred (a constant offset in one factor survives whenever the precision is not the identity)"""
+    prog = ctx.prog
+    f = prog.func(q)
+    ifs = [n for n in ast.walk(f.node) if isinstance(n, ast.If) and isinstance(n.test, ast.Name) and n.test.id == 'remove_mean']
+    from ..rules.common import Inliner
+    for mode, force in (('remove_mean=True', {id(n): 'body' for n in ifs}), ('remove_mean=False', {id(n): 'orelse' for n in ifs})):
+        r = ctx.dep.analyze(q, force=force)
+        inl = Inliner(r, None, tuple(f.params))
+        for c in ast.walk(f.node):
+            if isinstance(c, ast.Call) and isinstance(c.func, ast.Name) and c.func.id == SINGLE.split('.')[-1] and len(c.args) >= 2:
+                a, b = (_abstract_means(inl.inline(x)) for x in c.args[:2])
+                if a is None or b is None:
+                    continue
+                con = f'{mode}: both fold-mean operands of the kernel are prepared alike'
+                if a[1] == 0 and b[1] == 0:
+                    continue        # operands are not built from average_dataset_by here (list-of-precisions arm: same list)
+                obs.check(a[0] == b[0], rule, q, con,
+                          f'`{norm(c)[:70]}`: first operand is `{a[0][:80]}`, second is `{b[0][:80]}` (M = the fold means): one side '
+                          f'misses a step the other has', '', where(prog, f, c))
+
+
+def _abstract_means(e):
+    """replace every average_dataset_by(...)[k] / its tuple element by the placeholder M; returns (text, number of replacements)"""
+    n = [0]
+
+    class Tr(ast.NodeTransformer):
+        def visit_Subscript(self, node):
+            if isinstance(node.value, ast.Call) and isinstance(node.value.func, ast.Name) and node.value.func.id == 'average_dataset_by':
+                n[0] += 1
+                return ast.Name(id='M', ctx=ast.Load())
+            return self.generic_visit(node)
+
+        def visit_Call(self, node):
+            if isinstance(node.func, ast.Name) and node.func.id == 'average_dataset_by':
+                n[0] += 1
+                return ast.Name(id='M', ctx=ast.Load())
+            if isinstance(node.func, ast.Name) and node.func.id == 'ELEM' and node.args and isinstance(node.args[0], ast.Call) \
+                    and isinstance(node.args[0].func, ast.Name) and node.args[0].func.id == 'average_dataset_by':
+                n[0] += 1
+                return ast.Name(id='M', ctx=ast.Load())
+            return self.generic_visit(node)
+    import copy
+    t = Tr().visit(copy.deepcopy(e))
+    return ast.unparse(t), n[0]
